@@ -12,6 +12,8 @@ shows up as `panic` (implementation) vs `err` (model).
 import StarModel.Props.C08
 import StarModel.Lemmas.Adss
 import StarModel.Lemmas.Ppoprf
+import StarModel.Props.C15
+import StarModel.Props.C17
 
 namespace StarModel.Props.C09
 open StarModel StarModel.Ppoprf
@@ -31,6 +33,23 @@ y-coordinates, ragged, duplicated, empty collections — for every permutation `
 theorem C09_recovery (F : Perm) (t : Nat) (sh : List Sharks.Share) (shares : List Adss.Share) (w : String) :
     Sharks.recover t sh ≠ .panic w ∧ Adss.recover F shares ≠ .panic w ∧ Star.shareRecover F shares ≠ .panic w :=
   ⟨Sharks.recover_not_panic t sh w, Adss.recover_not_panic F shares w, Adss.recover_not_panic F shares w⟩
+
+/-- (U) the loaders of public keys and proofs (size guard, then bincode) and the WASM grouping call
+(newline-separated base64 shares + epoch): for every byte string / every pair of strings the
+outcome is a value or the function's own failure, never a panic -/
+theorem C09_loaders_and_wasm (F : Perm) (bs : Bytes) (serializedShares epoch : String) :
+    (∀ w, Codec.pkFromBincode bs ≠ .panic w) ∧ (∀ w, Codec.proofFromBincodeFull bs ≠ .panic w) ∧
+    (∀ w, Wasm.groupShares F serializedShares epoch ≠ .panic w) := by
+  refine ⟨?_, ?_, fun w => C17.C17_group_never_panics F serializedShares epoch w⟩
+  · intro w h
+    rcases (C15.C15_pk_decode_total bs).1 with ⟨v, hv⟩ | ⟨k, hk⟩
+    · rw [hv] at h; cases h
+    · rw [hk] at h; cases h
+  · intro w h
+    rcases C15.C15_proof_total bs with ⟨p, hp⟩ | hp | hp
+    · rw [hp] at h; cases h
+    · rw [hp] at h; cases h
+    · rw [hp] at h; cases h
 
 theorem i2osp2_small (n : Nat) (h : n < 65536) : i2osp2 n = .ok (Bytes.be16 n) := by
   unfold i2osp2; rw [if_pos h]
